@@ -426,11 +426,32 @@ Proof.
     apply N.eqb_eq in H1. apply Z.eqb_eq in H2. apply N.eqb_eq in H3. congruence.
   - intros H. inversion H. subst. rewrite !N.eqb_refl, Z.eqb_refl. reflexivity.
 Qed.
+Lemma edge_eqb_eq : forall a b, edge_eqb a b = true <-> a = b.
+Proof.
+  intros [i m s] [i' m' s']. unfold edge_eqb. cbn [e_src e_dest e_cdate]. split.
+  - intros H. apply Bool.andb_true_iff in H. destruct H as [H H3]. apply Bool.andb_true_iff in H. destruct H as [H1 H2].
+    apply N.eqb_eq in H1. apply N.eqb_eq in H2. apply Z.eqb_eq in H3. congruence.
+  - intros H. inversion H. subst. rewrite !N.eqb_refl, Z.eqb_refl. reflexivity.
+Qed.
+Lemma etomb_eqb_eq : forall a b, etomb_eqb a b = true <-> a = b.
+Proof.
+  intros [i m s d] [i' m' s' d']. unfold etomb_eqb. cbn [et_src et_dest et_cdate et_ddate]. split.
+  - intros H. apply Bool.andb_true_iff in H. destruct H as [H H4]. apply Bool.andb_true_iff in H. destruct H as [H H3].
+    apply Bool.andb_true_iff in H. destruct H as [H1 H2].
+    apply N.eqb_eq in H1. apply N.eqb_eq in H2. apply Z.eqb_eq in H3. apply Z.eqb_eq in H4. congruence.
+  - intros H. inversion H. subst. rewrite !N.eqb_refl, !Z.eqb_refl. reflexivity.
+Qed.
 Lemma has_tomb_in : forall l t, has_tomb l t = true <-> In t l.
 Proof.
   intros l t. unfold has_tomb. rewrite existsb_exists. split.
   - intros [u [Hin E]]. apply tomb_eqb_eq in E. subst. exact Hin.
   - intros H. exists t. split; [exact H|apply tomb_eqb_eq; reflexivity].
+Qed.
+Lemma has_etomb_in : forall l t, has_etomb l t = true <-> In t l.
+Proof.
+  intros l t. unfold has_etomb. rewrite existsb_exists. split.
+  - intros [u [Hin E]]. apply etomb_eqb_eq in E. subst. exact Hin.
+  - intros H. exists t. split; [exact H|apply etomb_eqb_eq; reflexivity].
 Qed.
 Lemma has_row_in : forall l n, has_row l n = true <-> In n l.
 Proof.
@@ -447,15 +468,20 @@ Proof.
 Qed.
 Lemma replica_eqb_eq : forall a b, replica_eqb a b = true -> a = b.
 Proof.
-  intros [na ta] [nb tb] H. unfold replica_eqb in H. cbn [nodes tombs] in H.
+  intros [na ta ea xa] [nb tb eb xb] H. unfold replica_eqb in H. cbn [nodes tombs edges etombs] in H.
+  apply Bool.andb_true_iff in H. destruct H as [H H4]. apply Bool.andb_true_iff in H. destruct H as [H H3].
   apply Bool.andb_true_iff in H. destruct H as [H1 H2].
-  apply (list_eqb_eq row_eqb row_eqb_eq) in H1. apply (list_eqb_eq tomb_eqb tomb_eqb_eq) in H2. congruence.
+  apply (list_eqb_eq row_eqb row_eqb_eq) in H1. apply (list_eqb_eq tomb_eqb tomb_eqb_eq) in H2.
+  apply (list_eqb_eq edge_eqb edge_eqb_eq) in H3. apply (list_eqb_eq etomb_eqb etomb_eqb_eq) in H4. congruence.
 Qed.
 
 Definition keys_unique (l : list tomb) : Prop := forall a b, In a l -> In b l -> same_key a b = true -> a = b.
+Definition ekeys_unique (l : list etomb) : Prop := forall a b, In a l -> In b l -> same_ekey a b = true -> a = b.
 
 Lemma same_key_sym' : forall a b, same_key a b = same_key b a.
 Proof. intros a b. unfold same_key. rewrite (N.eqb_sym (t_id a)), (Z.eqb_sym (t_ddate a)). reflexivity. Qed.
+Lemma same_ekey_sym : forall a b, same_ekey a b = same_ekey b a.
+Proof. intros a b. unfold same_ekey. rewrite (N.eqb_sym (et_src a)), (N.eqb_sym (et_dest a)), (Z.eqb_sym (et_ddate a)). reflexivity. Qed.
 
 Lemma in_tomb_put : forall l t u, In u (tomb_put l t) -> u = t \/ In u l.
 Proof.
@@ -478,12 +504,53 @@ Proof.
   - apply filter_In in Ha. destruct Ha as [_ Ha]. rewrite K in Ha. discriminate.
   - apply filter_In in Ha. apply filter_In in Hb. apply H; tauto.
 Qed.
+Lemma in_etomb_put : forall l t u, In u (etomb_put l t) -> u = t \/ In u l.
+Proof.
+  intros l t u H. unfold etomb_put in H. destruct (has_etomb l t); [right; exact H|].
+  destruct H as [H|H]; [left; auto|right]. apply filter_In in H. tauto.
+Qed.
+Lemma etomb_put_in : forall l t, In t (etomb_put l t).
+Proof.
+  intros l t. unfold etomb_put. destruct (has_etomb l t) eqn:E; [apply has_etomb_in; exact E|left; reflexivity].
+Qed.
+Lemma etomb_put_keep : forall l t u, In u l -> same_ekey u t = false -> In u (etomb_put l t).
+Proof.
+  intros l t u H K. unfold etomb_put. destruct (has_etomb l t); [exact H|]. right. apply filter_In. rewrite K. auto.
+Qed.
+Lemma ekeys_unique_put : forall l t, ekeys_unique l -> ekeys_unique (etomb_put l t).
+Proof.
+  intros l t H. unfold etomb_put. destruct (has_etomb l t); [exact H|].
+  intros a b [<-|Ha] [<-|Hb] K; try reflexivity.
+  - apply filter_In in Hb. destruct Hb as [_ Hb]. rewrite same_ekey_sym in K. rewrite K in Hb. discriminate.
+  - apply filter_In in Ha. destruct Ha as [_ Ha]. rewrite K in Ha. discriminate.
+  - apply filter_In in Ha. apply filter_In in Hb. apply H; tauto.
+Qed.
+
+(* what the two kinds of record application touch *)
+Lemma apply_tomb_fields : forall r t, edges (apply_tomb r t) = edges r /\ etombs (apply_tomb r t) = etombs r.
+Proof. intros. split; reflexivity. Qed.
+Lemma fold_apply_tomb_fields : forall ts r,
+  edges (fold_left apply_tomb ts r) = edges r /\ etombs (fold_left apply_tomb ts r) = etombs r.
+Proof.
+  induction ts as [|t ts IH]; intros r; cbn [fold_left]; [split; reflexivity|].
+  destruct (IH (apply_tomb r t)) as [A B]. rewrite A, B. split; reflexivity.
+Qed.
+Lemma fold_apply_etomb_fields : forall ts r,
+  nodes (fold_left apply_etomb ts r) = nodes r /\ tombs (fold_left apply_etomb ts r) = tombs r.
+Proof.
+  induction ts as [|t ts IH]; intros r; cbn [fold_left]; [split; reflexivity|].
+  destruct (IH (apply_etomb r t)) as [A B]. rewrite A, B. split; reflexivity.
+Qed.
 
 Lemma tombs_fold_apply : forall ts r, tombs (fold_left apply_tomb ts r) = fold_left tomb_put ts (tombs r).
+Proof. induction ts as [|t ts IH]; intros r; cbn [fold_left]; [reflexivity|]. rewrite IH. reflexivity. Qed.
+Lemma etombs_fold_apply : forall ts r, etombs (fold_left apply_etomb ts r) = fold_left etomb_put ts (etombs r).
 Proof. induction ts as [|t ts IH]; intros r; cbn [fold_left]; [reflexivity|]. rewrite IH. reflexivity. Qed.
 
 Lemma keys_unique_fold : forall ts l, keys_unique l -> keys_unique (fold_left tomb_put ts l).
 Proof. induction ts as [|t ts IH]; intros l H; cbn [fold_left]; [exact H|]. apply IH. apply keys_unique_put. exact H. Qed.
+Lemma ekeys_unique_fold : forall ts l, ekeys_unique l -> ekeys_unique (fold_left etomb_put ts l).
+Proof. induction ts as [|t ts IH]; intros l H; cbn [fold_left]; [exact H|]. apply IH. apply ekeys_unique_put. exact H. Qed.
 
 (* applying records of a source with unique keys: a record of the source that is applied, or already
    held, is held afterwards *)
@@ -500,6 +567,20 @@ Proof.
       * right. destruct (same_key t u) eqn:K.
         -- assert (t = u) by (apply Hk; [exact Ht|apply Hs; left; reflexivity|exact K]). subst. apply tomb_put_in.
         -- apply tomb_put_keep; assumption.
+Qed.
+Lemma fold_eput_has : forall src ts l t, ekeys_unique src -> (forall u, In u ts -> In u src) -> In t src ->
+  In t ts \/ In t l -> In t (fold_left etomb_put ts l).
+Proof.
+  intros src ts. induction ts as [|u ts IH]; intros l t Hk Hs Ht H; cbn [fold_left].
+  - destruct H as [[]|H]. exact H.
+  - apply IH; try assumption.
+    + intros v Hv. apply Hs. right. exact Hv.
+    + destruct H as [[->|H]|H].
+      * right. apply etomb_put_in.
+      * left. exact H.
+      * right. destruct (same_ekey t u) eqn:K.
+        -- assert (t = u) by (apply Hk; [exact Ht|apply Hs; left; reflexivity|exact K]). subst. apply etomb_put_in.
+        -- apply etomb_put_keep; assumption.
 Qed.
 
 (* ---------- the invariant ---------- *)
@@ -532,7 +613,7 @@ Qed.
 
 Lemma inv_apply_tomb : forall r t, inv_replica r -> inv_replica (apply_tomb r t).
 Proof.
-  intros r t H n u Hn Hu Hid. unfold apply_tomb in *. cbn [nodes tombs] in *.
+  intros r t H n u Hn Hu Hid. unfold apply_tomb, with_nodes_tombs in *. cbn [nodes tombs] in *.
   apply filter_In in Hn. destruct Hn as [Hn Hc].
   apply in_tomb_put in Hu. destruct Hu as [->|Hu]; [|apply (H n u Hn Hu Hid)].
   apply Bool.negb_true_iff in Hc. unfold covered in Hc. rewrite <- Hid, N.eqb_refl in Hc. cbn [andb] in Hc.
@@ -542,23 +623,29 @@ Lemma inv_fold_apply_tomb : forall ts r, inv_replica r -> inv_replica (fold_left
 Proof. induction ts as [|t ts IH]; intros r H; cbn [fold_left]; [exact H|]. apply IH. apply inv_apply_tomb. exact H. Qed.
 
 Lemma nodup_ids_apply_tomb : forall r t, nodup_ids (nodes r) -> nodup_ids (nodes (apply_tomb r t)).
-Proof. intros. unfold apply_tomb. cbn [nodes]. apply nodup_ids_filter. assumption. Qed.
+Proof. intros. unfold apply_tomb, with_nodes_tombs. cbn [nodes]. apply nodup_ids_filter. assumption. Qed.
 Lemma nodup_ids_fold_apply : forall ts r, nodup_ids (nodes r) -> nodup_ids (nodes (fold_left apply_tomb ts r)).
 Proof. induction ts as [|t ts IH]; intros r H; cbn [fold_left]; [exact H|]. apply IH. apply nodup_ids_apply_tomb. exact H. Qed.
 
-Record good (r : replica) : Prop := { g_ids : nodup_ids (nodes r); g_keys : keys_unique (tombs r); g_inv : inv_replica r }.
+Record good (r : replica) : Prop := {
+  g_ids : nodup_ids (nodes r); g_keys : keys_unique (tombs r); g_inv : inv_replica r; g_ekeys : ekeys_unique (etombs r) }.
 
 Lemma good_sync_day : forall src dst cnt d, good dst -> good (fst (sync_day src (dst, cnt) d)).
 Proof.
-  intros src dst cnt d [G1 G2 G3]. unfold sync_day. cbn [fst].
-  set (dst1 := fold_left apply_tomb (tombs_on_day d (tombs src)) dst).
-  assert (H1 : inv_replica dst1) by (apply inv_fold_apply_tomb; exact G3).
-  constructor; cbn [nodes tombs].
-  - apply nodup_ids_fold_put. apply nodup_ids_fold_apply. exact G1.
-  - unfold dst1. rewrite tombs_fold_apply. apply keys_unique_fold. exact G2.
+  intros src dst cnt d [G1 G2 G3 G4]. unfold sync_day. cbn [fst].
+  set (dst0 := fold_left apply_etomb (etombs_on_day d (etombs src)) dst).
+  set (dst1 := fold_left apply_tomb (tombs_on_day d (tombs src)) dst0).
+  destruct (fold_apply_etomb_fields (etombs_on_day d (etombs src)) dst) as [N0 T0]. fold dst0 in N0, T0.
+  assert (H0 : inv_replica dst0) by (intros n t Hn Ht; rewrite N0 in Hn; rewrite T0 in Ht; apply G3; assumption).
+  assert (H1 : inv_replica dst1) by (apply inv_fold_apply_tomb; exact H0).
+  constructor; cbn [nodes tombs edges etombs].
+  - apply nodup_ids_fold_put. apply nodup_ids_fold_apply. rewrite N0. exact G1.
+  - unfold dst1. rewrite tombs_fold_apply. apply keys_unique_fold. rewrite T0. exact G2.
   - intros n t Hn Ht Hid. apply in_fold_put in Hn. destruct Hn as [Hn|Hn]; [|apply (H1 n t Hn Ht Hid)].
     apply filter_In in Hn. destruct Hn as [_ Hf]. apply Bool.andb_true_iff in Hf. destruct Hf as [_ Hb].
     apply Bool.negb_true_iff in Hb. apply (below_tomb_false _ _ Hb t Ht Hid).
+  - unfold dst1. rewrite (proj2 (fold_apply_tomb_fields _ dst0)). unfold dst0. rewrite etombs_fold_apply.
+    apply ekeys_unique_fold. exact G4.
 Qed.
 
 Lemma good_pull : forall src days acc, good (fst acc) -> good (fst (fold_left (sync_day src) days acc)).
@@ -582,33 +669,56 @@ Proof.
   congruence.
 Qed.
 
+(* re-dating a row inside the envelope keeps the invariant *)
+Lemma inv_redate : forall r x t sg e, inv_replica r -> In e (nodes r) -> n_id e = x -> (t <? n_mdate e) = false ->
+  forall n u, In n (put_node (nodes r) {| n_id := x; n_mdate := t; n_sig := sg |}) -> In u (tombs r) -> t_id u = n_id n ->
+  t_mdate u < n_mdate n.
+Proof.
+  intros r x t sg e H Fin Fid Hg n u Hn Hu Hid. unfold put_node in Hn. destruct Hn as [<-|Hn].
+  - cbn [n_id n_mdate] in *. apply Z.ltb_ge in Hg.
+    assert (t_mdate u < n_mdate e) by (apply (H e u Fin Hu); congruence). lia.
+  - apply in_remove_node in Hn. apply (H n u (proj1 Hn) Hu Hid).
+Qed.
+
 (* every step inside the envelope preserves: one row per id, one record per key, no row at or below a
    held deletion record *)
 Lemma step_good : forall S o, good_sys S -> snd (step S o) = false -> good_sys (fst (fst (step S o))).
 Proof.
-  intros S o H Hg. destruct o as [p x t sg|p x t sg|p x t|d s days]; cbn [step] in *.
-  - cbn [fst snd] in *. apply good_set; [exact H|]. destruct (H p) as [G1 G2 G3]. constructor; cbn [nodes tombs].
+  intros S o H Hg. destruct o as [p x t sg|p x t sg|p x t|p x y t sg|p x y t sg|d s days]; cbn [step] in *.
+  - cbn [fst snd] in *. apply good_set; [exact H|]. destruct (H p) as [G1 G2 G3 G4].
+    constructor; unfold with_nodes; cbn [nodes tombs edges etombs]; try assumption.
     + apply nodup_ids_put. exact G1.
-    + exact G2.
     + intros n u Hn Hu Hid. unfold put_node in Hn. destruct Hn as [<-|Hn].
       * cbn [n_id] in Hid. exfalso. apply (mentions_false _ _ Hg u Hu Hid).
       * apply in_remove_node in Hn. apply (G3 n u (proj1 Hn) Hu Hid).
   - destruct (find_node x (nodes (get p S))) as [e|] eqn:F; cbn [fst snd] in *; [|exact H].
-    apply good_set; [exact H|]. destruct (H p) as [G1 G2 G3].
-    apply find_node_some in F. destruct F as [Fin Fid]. constructor; cbn [nodes tombs].
+    apply good_set; [exact H|]. destruct (H p) as [G1 G2 G3 G4].
+    apply find_node_some in F. destruct F as [Fin Fid].
+    constructor; unfold with_nodes; cbn [nodes tombs edges etombs]; try assumption.
     + apply nodup_ids_put. exact G1.
-    + exact G2.
-    + intros n u Hn Hu Hid. unfold put_node in Hn. destruct Hn as [<-|Hn].
-      * cbn [n_id n_mdate] in *. apply Z.ltb_ge in Hg.
-        assert (t_mdate u < n_mdate e) by (apply (G3 e u Fin Hu); congruence). lia.
-      * apply in_remove_node in Hn. apply (G3 n u (proj1 Hn) Hu Hid).
+    + intros n u Hn Hu Hid. cbn [nodes tombs] in *. apply (inv_redate (get p S) x t sg e G3 Fin Fid Hg n u Hn Hu Hid).
   - destruct (find_node x (nodes (get p S))) as [e|] eqn:F; cbn [fst snd] in *; [|exact H].
-    apply good_set; [exact H|]. destruct (H p) as [G1 G2 G3]. constructor; cbn [nodes tombs].
+    apply good_set; [exact H|]. destruct (H p) as [G1 G2 G3 G4]. constructor; cbn [nodes tombs edges etombs]; try assumption.
     + apply nodup_ids_remove. exact G1.
     + apply keys_unique_put. exact G2.
     + intros n u Hn Hu Hid. apply in_remove_node in Hn. destruct Hn as [Hn Hne].
       apply in_tomb_put in Hu. destruct Hu as [->|Hu]; [cbn [t_id] in Hid; congruence|].
       apply (G3 n u Hn Hu Hid).
+  - destruct (find_node x (nodes (get p S))) as [ex|] eqn:F; [|exact H].
+    destruct (find_node y (nodes (get p S))); [|exact H].
+    destruct (find_edge x y (edges (get p S))); cbn [fst snd] in *; [exact H|].
+    apply good_set; [exact H|]. destruct (H p) as [G1 G2 G3 G4].
+    apply find_node_some in F. destruct F as [Fin Fid].
+    constructor; cbn [nodes tombs edges etombs]; try assumption.
+    + apply nodup_ids_put. exact G1.
+    + intros n0 u Hn Hu Hid. cbn [nodes tombs] in *. apply (inv_redate (get p S) x t sg ex G3 Fin Fid Hg n0 u Hn Hu Hid).
+  - destruct (find_node x (nodes (get p S))) as [ex|] eqn:F; [|exact H].
+    apply find_node_some in F. destruct F as [Fin Fid]. destruct (H p) as [G1 G2 G3 G4].
+    destruct (find_edge x y (edges (get p S))); cbn [fst snd] in *; apply good_set; try exact H;
+      constructor; unfold with_nodes; cbn [nodes tombs edges etombs]; try assumption;
+      try (apply nodup_ids_put; exact G1);
+      try (intros n0 u Hn Hu Hid; cbn [nodes tombs] in *; apply (inv_redate (get p S) x t sg ex G3 Fin Fid Hg n0 u Hn Hu Hid)).
+    apply ekeys_unique_put. exact G4.
   - unfold pull_replica.
     pose proof (good_pull (get s S) days (get d S, 0%N) (H d)) as HG.
     destruct (fold_left (sync_day (get s S)) days (get d S, 0%N)) as [r cnt]. cbn [fst] in *.
@@ -638,6 +748,7 @@ Proof.
   - constructor.
   - intros a b [].
   - intros k t [].
+  - intros a b [].
 Qed.
 
 Lemma run_guard_app : forall a b S, run_guard S (a ++ b) = (run_guard S a || run_guard (run_sys S a) b)%bool.
